@@ -40,7 +40,7 @@ PROBES = ['gen_on_existing_rejected', 'gen_force', 'gen_force_other_reference', 
           'upd_force_existing', 'upd_force_new', 'load_unregistered_rejected', 'skew_rejected', 'graph_params_alias',
           'auto_exception_alias', 'symlink', 'natural_failure', 'three_or_more_pools', 'invalid_protein_as_noncoding',
           'skew_rejected_plain_load', 'gen_force_on_old_layout', 'proteome_with_x_or_stop',
-          'load_after_failed_invocation', 'load_after_failed_invocation_succeeded', 'crash', 'crash:before-open',
+          'explicit_reference_source', 'load_after_failed_invocation', 'load_after_failed_invocation_succeeded', 'crash', 'crash:before-open',
           'crash:opened', 'crash:written', 'crash:written:torn', 'crash:before-remove', 'crash:before-copy',
           'crash:copied']
 RULE = ('case = two generated references R_A/R_B; history = Hypothesis rule sequence (<=12 operations) over '
@@ -322,12 +322,12 @@ class Sim:
         return (tuple(sorted(self.pools.values())), self.cur_ref, self.skewed, self.clean, self.exists)
 
     # ---- real invocations -------------------------------------------------------------------
-    def inv_generate(self, refdir, pname, force, symlink, flag):
+    def inv_generate(self, refdir, pname, force, symlink, flag, source=None):
         p = PARAMS[pname]
         args = argparse.Namespace(
             command='generateIndex', genome_fasta=refdir / 'genome.fasta',
             annotation_gtf=refdir / 'annotation.gtf', proteome_fasta=refdir / 'proteome.fasta',
-            reference_source=None, invalid_protein_as_noncoding=flag, output_dir=self.ctx.index,
+            reference_source=source, invalid_protein_as_noncoding=flag, output_dir=self.ctx.index,
             gtf_symlink=symlink, force=force, cleavage_rule=p['rule'], cleavage_exception=p['exception'],
             miscleavage=str(p['miscleavage']), min_mw=str(p['min_mw']), min_length=p['min_length'],
             max_length=p['max_length'], quiet=True, debug_level=1)
@@ -446,13 +446,15 @@ class Sim:
         self.arm(k, torn)
         self.op_upd(pname, force)
 
-    def op_gen(self, ref, pname, force, symlink, flag):
+    def op_gen(self, ref, pname, force, symlink, flag, source=None):
         ctx = self.ctx
+        if source:
+            self.probe('explicit_reference_source')
         refdir = ctx.fresh_copy(ref)
         has_gtf = (ctx.index / 'annotation.gtf').exists() or (ctx.index / 'annotation.gtf').is_symlink()
         nonempty = ctx.index.exists() and any(ctx.index.iterdir())
         before = self.state_sig()
-        r = self.inv_generate(refdir, pname, force, symlink, flag)
+        r = self.inv_generate(refdir, pname, force, symlink, flag, source)
         if r[0] == 'crash':
             self.crashed(before, 'gen', r)
             return
@@ -694,9 +696,10 @@ def make_machine(ctx_factory, trace_box, stats_box, log=None):
             self.do(('gen', ref, p, False, symlink, flag))
 
         @rule(ref=st.sampled_from(['A', 'B']), p=pn, force=st.booleans(),
-              symlink=st.sampled_from([False] * 7 + [True]), flag=st.sampled_from([False, False, False, True]))
-        def gen(self, ref, p, force, symlink, flag):
-            self.do(('gen', ref, p, force, symlink, flag))
+              symlink=st.sampled_from([False] * 7 + [True]), flag=st.sampled_from([False, False, False, True]),
+              source=st.sampled_from([None, None, 'GENCODE']))
+        def gen(self, ref, p, force, symlink, flag, source):
+            self.do(('gen', ref, p, force, symlink, flag, source))
 
         @rule(p=pn, force=st.sampled_from([False, False, True]))
         def upd(self, p, force):
